@@ -66,14 +66,14 @@ func c15Shapes(tier string) []*shape {
 	}
 	for i, s := range inner {
 		d2 = append(d2, &shape{K: "slice", Elem: s}, &shape{K: "ptr", Elem: s}, st(f("o", false, s)), st(f("o", true, s)))
-		if i%3 == 0 || tier == "thorough" {
+		if i%2 == 0 || tier == "thorough" {
 			d2 = append(d2, &shape{K: "map", Key: L("string"), Elem: s}, &shape{K: "array", Elem: s}, st(f("p", false, L("int")), f("q", false, &shape{K: "slice", Elem: s})))
 		}
 	}
 	out = append(out, d2...)
 	var d3 []*shape
 	for i, s := range d2 {
-		if i%7 == 0 || tier == "thorough" {
+		if i%3 == 0 || tier == "thorough" {
 			d3 = append(d3, &shape{K: "slice", Elem: s}, &shape{K: "ptr", Elem: s}, st(f("r", false, s)))
 		}
 	}
